@@ -457,20 +457,21 @@ void run_script(const Script &sc, vh::Rng &r, vh::Sig &sig, const char *mode) {
         if (sc.close_idx >= 0 && !(w.eof || w.reset)) return false;
         return true;
     };
+    // Idle = passes without any byte received, request delivered or handler completed, while no handler is pending (waiting for our
+    // own script is not idleness). Loopback delivery happens inside the sender's system call, so nothing is normally outstanding
+    // after one pass; the last 20 idle passes nevertheless wait on the socket (3 ms each) in case the kernel deferred the work.
     uint64_t idle_from = w.pass_no;
-    uint64_t idle_limit = 400;
-    for (auto &p : sc.plans) if (p.body >= 100000) idle_limit = 2000;
+    const uint64_t idle_limit = 80;
     size_t last_rx = w.rx.size();
-    size_t last_pending = w.pending.size();
+    size_t last_completed = w.completed.size();
     size_t last_delivered = w.delivered.size();
     while (!w.poisoned && !done()) {
-        if (w.eof || w.reset) { if (w.pending.empty() && w.pass_no - idle_from > 30) break; }
         one_pass(w);
-        if (w.rx.size() != last_rx || w.pending.size() != last_pending || w.delivered.size() != last_delivered) {
-            last_rx = w.rx.size(); last_pending = w.pending.size(); last_delivered = w.delivered.size(); idle_from = w.pass_no;
+        if (w.rx.size() != last_rx || w.completed.size() != last_completed || w.delivered.size() != last_delivered || !w.pending.empty()) {
+            last_rx = w.rx.size(); last_completed = w.completed.size(); last_delivered = w.delivered.size(); idle_from = w.pass_no;
         }
         uint64_t idle = w.pass_no - idle_from;
-        if (idle > 60) { struct pollfd p = {w.cfd, POLLIN, 0}; poll(&p, 1, 2); }
+        if (idle > idle_limit - 20 && !(w.eof || w.reset)) { struct pollfd p = {w.cfd, POLLIN, 0}; poll(&p, 1, 3); }
         if (idle > idle_limit) break;
     }
     // a few more passes: anything written after the end would show up now
@@ -561,7 +562,7 @@ void run_script(const Script &sc, vh::Rng &r, vh::Sig &sig, const char *mode) {
         }
         // 3. closure
         if (resp_ok && deliv_ok && sc.close_idx >= 0 && !(w.eof || w.reset))
-            vh::viol("pipeline/not-closed-after-closing-response", "the closing response arrived but the connection stayed open for hundreds of idle passes; " + where());
+            vh::viol("pipeline/not-closed-after-closing-response", "the closing response arrived but the connection stayed open for 80 further idle passes; " + where());
         if (resp_ok && deliv_ok && sc.close_idx >= 0 && (w.eof || w.reset)) vh::counter(w.eof ? "srv_eof_after_closing_response" : "srv_reset_after_closing_response");
         if (resp_ok && deliv_ok && sc.close_idx < 0 && !(w.eof || w.reset)) vh::counter("srv_connection_kept_open_without_close");
     }
